@@ -669,6 +669,15 @@ def fold_direct(run: Run, n_cases: int, seed: int) -> None:
     def t_un(op, v):
         fold_unary_case(run, op, v)
 
+    # directed: true division of ints that a double cannot hold exactly (CPython rounds the exact quotient ONCE;
+    # converting an operand to float first rounds twice) - every pair, both folding entry points
+    big = [2**53 + 1, 2**53 + 3, 2**54 + 2, 2**63 - 1, 2**63 + 1, 2**64 - 1, 2**70 - 1, 10**17 + 1, 3 * 2**60 + 1]
+    big += [-x for x in big]
+    for l_ in big:
+        for r_ in (3, 7, 10, 11, 2**53 - 1, 2**53 + 1, -3, 2**62 + 1):
+            fold_case(run, "/", l_, r_, False)
+            fold_case(run, "/", l_, r_, True)
+            fold_case(run, "/", r_, l_, False)
     t_bin()
     t_bin_ext()
     t_un()
